@@ -22,13 +22,13 @@ type TF struct {
 	T    *T
 }
 
-func tAtom(k string) *T           { return &T{K: k} }
-func tVar(n string) *T            { return &T{K: "var", Name: n} }
-func tList(e *T) *T               { return &T{K: "list", Kids: []*T{e}} }
-func tMaybe(e *T) *T              { return &T{K: "maybe", Kids: []*T{e}} }
-func tMap(k, v *T) *T             { return &T{K: "map", Kids: []*T{k, v}} }
-func tTuple(xs ...*T) *T          { return &T{K: "tuple", Kids: xs} }
-func tObj(fs ...TF) *T            { return &T{K: "obj", Fields: fs} }
+func tAtom(k string) *T               { return &T{K: k} }
+func tVar(n string) *T                { return &T{K: "var", Name: n} }
+func tList(e *T) *T                   { return &T{K: "list", Kids: []*T{e}} }
+func tMaybe(e *T) *T                  { return &T{K: "maybe", Kids: []*T{e}} }
+func tMap(k, v *T) *T                 { return &T{K: "map", Kids: []*T{k, v}} }
+func tTuple(xs ...*T) *T              { return &T{K: "tuple", Kids: xs} }
+func tObj(fs ...TF) *T                { return &T{K: "obj", Fields: fs} }
 func tFun(n string, ps []*T, r *T) *T { return &T{K: "fun", Name: n, Kids: ps, Ret: r} }
 
 var (
@@ -192,12 +192,12 @@ func (t *T) hasVar() bool {
 }
 
 type tyGen struct {
-	r       *rand.Rand
-	vars    []string // variable names that may appear ("" slice: ground)
-	bot     bool     // allow ⊥
-	top     bool     // allow ⊤
-	funs    bool
-	fields  []string
+	r      *rand.Rand
+	vars   []string // variable names that may appear ("" slice: ground)
+	bot    bool     // allow ⊥
+	top    bool     // allow ⊤
+	funs   bool
+	fields []string
 }
 
 var fieldPool = []string{"a", "b", "c", "d"}
